@@ -16,6 +16,7 @@ EXPLANATION = (
     "slack and factor, every family used is declared and switched on by the constructor arguments (V1), helper kinds/bounds match "
     "declarations (V2; one tabled exception for gamma's bound under length factors); position / path-length rows of the base class conform; "
     "(R3) k=None takes get_width with the synthetic edges, the ignored edges and the scale-0 edges ignored; (R4) the constructor never writes to the caller's ignore list / options / constraints or "
+    "(R3w) the width that k=None and the lower bound rely on counts every non-ignored element (demands of C09.R7); (R7) cyclic model: walk reconstruction (C14.R1).  "
     "their shared defaults.  NOT decided: feasibility for all "
     "k >= width, optimality of the slack sum."
 )
